@@ -1462,6 +1462,9 @@ func (e *Exec) convert(ins ssa.Instruction, v Value, from, to types.Type) Value 
 			if x.IsConst() {
 				return StrV{s: string(rune(sext64(x.val, x.sort.W)))}
 			}
+			if x.op == OpRConst && x.rat.IsInt() {
+				return StrV{s: string(rune(x.rat.Num().Int64()))}
+			}
 			e.unsupported("string(symbolic rune)")
 		}
 	case isString(from):
